@@ -13,7 +13,7 @@
 #include <type_traits>
 using namespace glmx;
 
-enum { KF_ROTATE = 0 };
+enum { KF_ROTATE = 0, KF_POWNEG0 = 1 };
 
 static inline uint64_t wmask(int w) { return w == 64 ? ~0ull : ((1ull << w) - 1); }
 template <typename T> static inline uint64_t pat(T v) { return (uint64_t)(typename std::make_unsigned<T>::type)v; }
@@ -228,7 +228,7 @@ static void op_gtxpowmod(const Case& c, Outcome& o) {
   int x = (int)(int64_t)c.w[0] - 40; glm::uint y = (glm::uint)c.w[1]; o.cls(x < 0 ? 1 : 0);
   // pow: exact when representable
   __int128 p = 1; bool fits = true; for (glm::uint i = 0; i < y; ++i) { p *= x; if (p > 2147483647 || p < -(__int128)2147483648ll) { fits = false; break; } }
-  if (fits) { int g = glm::pow(x, y); o.res((uint32_t)g); o.exp((uint64_t)(int64_t)p); if (g != (int)p) { o.bad(1, "gtx pow(int,uint): not x^y"); return; } }
+  if (fits) { int g = glm::pow(x, y); o.res((uint32_t)g); o.exp((uint64_t)(int64_t)p); if (g != (int)p) { if (x < 0 && y == 0 && g == -1) o.kf = KF_POWNEG0; o.bad(1, "gtx pow(int,uint): not x^y"); if (o.kf < 0) return; o.fail = true; return; } }
   if (x >= 0) { __int128 q = 1; bool f2 = true; for (glm::uint i = 0; i < y; ++i) { q *= x; if (q > 4294967295ll) { f2 = false; break; } } if (f2) { glm::uint g = glm::pow((glm::uint)x, y); o.res(g); o.exp((uint64_t)q); if (g != (glm::uint)q) { o.bad(2, "gtx pow(uint,uint): not x^y"); return; } } }
   // mod: mathematical (non-negative) remainder for y > 0
   if (y > 0 && y < 100000) { int g = glm::mod(x, (int)y); int r = ((x % (int)y) + (int)y) % (int)y; o.res((uint32_t)g); o.exp((uint32_t)r); if (g != r) { o.bad(3, "gtx mod(int,int)"); return; }
@@ -257,7 +257,7 @@ template <typename T> static void reg(Engine& E, const char* tn) {
 }
 
 int main(int argc, char** argv) {
-  Engine E; E.property = "C18"; E.kf_ids = {"KF-C18-rotate-swapped"};
+  Engine E; E.property = "C18"; E.kf_ids = {"KF-C18-rotate-swapped", "KF-C18-pow-neg-zero"};
   E.assumptions = {"reference = loop-based definitions (nearest power of two / multiple in the named direction, n-th set bit, bit i of operand k at n*i+k) in 128-bit arithmetic"};
   reg<glm::int8>(E, "i8"); reg<glm::uint8>(E, "u8"); reg<glm::int16>(E, "i16"); reg<glm::uint16>(E, "u16");
   reg<glm::int32>(E, "i32"); reg<glm::uint32>(E, "u32"); reg<glm::int64>(E, "i64"); reg<glm::uint64>(E, "u64");
